@@ -4,6 +4,7 @@
   registrations, yields, cancels, poll rounds, in any interleaving).
 -/
 import MoreExec.Proofs.Poll.Yield
+import MoreExec.Gen.K17
 
 namespace MoreExec.Poll
 
@@ -120,5 +121,12 @@ def demoRun : List Act :=
 example : (run (init true) demoRun).isSome = true := by decide
 example : ((run (init true) demoRun).map (fun s => (s.done, s.polls, s.asks))) =
     some ([(0, .val 5), (1, .exc 7)], [[(0, 10), (1, 11)], [(1, 11)]], [(1, 11)]) := by decide
+
+/-- (the source of poll.py, regenerated) the shapes the model's actions assume: the poll function is handed a copy of the descriptor
+list taken under the lock and, if it raises, the exception goes to exactly that copy (`pollRaise` / `failNext`); `_register_poll` is one
+section - append, drop the delegate link, set the event (`register`, `setE`); `_deregister_poll` filters under the lock and is the
+future's FIRST done-callback (`dereg` inside the resolving call); `notify()` sets the event unconditionally (`notifyA`); a descriptor's
+yields go to its own future through the tolerant setters (`yieldA`); the delegate's completion is routed cancelled / failed / register. -/
+theorem C08_source_facts : MoreExec.Gen.K17.allPollFactsHold = true := by decide
 
 end MoreExec.Poll
